@@ -12,9 +12,13 @@ rm -rf .cache/ev-backup && cp -r evidence .cache/ev-backup
 git -C /repo apply "$S/patch.diff" || { echo "patch does not apply"; exit 2; }
 for p in $PROPS; do
   t0=$(date +%s)
-  out=$(./check $p --quick 2>/dev/null | grep -E '^VIOLATION' | head -1)
+  ./check $p --quick > .cache/try_seed.out 2> .cache/try_seed.err; rc=$?
+  out=$(grep -E '^VIOLATION' .cache/try_seed.out | head -1)
   t1=$(date +%s)
-  if [ -n "$out" ]; then
+  if [ -z "$out" ] && [ $rc -ne 0 ]; then
+     # the check itself broke (a generator or orchestrator error): that is not a verdict about the seed
+     echo "$(basename $S) $((t1-t0))s $p: CHECK-CRASHED rc=$rc $(tail -1 .cache/try_seed.err)"
+  elif [ -n "$out" ]; then
      case "$out" in *no-failing-input-found*) k="CORR-ONLY";; *) k="DETECTED";; esac
      echo "$(basename $S) $((t1-t0))s $p: $k  $out"
      rp=$(echo "$out" | sed 's/.*replay=\([^ ]*\).*/\1/'); [ -f "$rp" ] && cp "$rp" "$S/replay-$p.case"
